@@ -53,7 +53,8 @@ Proof.
   destruct (negb (fst u)); [exact I|]. destruct (negb (mem_host _ _)); [exact I|].
   apply allcalls_bind; [unfold gtid_executed; pac0; try exact I; reflexivity|]. intros g. destruct (snd g); [exact I|].
   apply allcalls_bind; [unfold is_waiting_ack; pac0; try exact I; reflexivity|]. intros w. cbn zeta.
-  apply allcalls_bind; [destruct (match snd w with Some _ => false | None => fst w end); [unfold now_; pac0; exact I|exact I]|].
+  destruct (snd w); [exact I|].
+  apply allcalls_bind; [destruct (fst w); [unfold now_; pac0; exact I|exact I]|].
   intros clk0. apply rc_final.
 Qed.
 
@@ -120,7 +121,7 @@ Lemma rec_with_master_clears me m clk st master tr o :
   exists rs mg, st = Some rs /\ permanently_lost rs mg = false /\
     has_ev tr (fun e => ev_call e = Sql master SGtidExecuted /\ ev_resp e = RGtid mg) /\
     has_ev tr (fun e => ev_call e = Sql me SIsReadOnly /\ exists s, ev_resp e = RFlags true s) /\
-    (master = me \/ has_ev tr (fun e => ev_call e = Sql me SWaitingAck /\ ev_resp e <> RBool true)).
+    (master = me \/ has_ev tr (fun e => ev_call e = Sql me SWaitingAck /\ ev_resp e = RBool false)).
 Proof.
   unfold rec_with_master. intros R Hc.
   destruct (runs_bind_inv _ _ _ _ R) as [(t1 & t2 & u & R1 & R2 & ->)|(s & R1 & ->)].
@@ -138,34 +139,31 @@ Proof.
   unfold is_waiting_ack in R2. cbn [bind runs] in R2. destruct t3 as [|ew t4]; [destruct Hc3 as (x & [] & _)|]. destruct R2 as (_ & Ecw & R2).
   assert (Hc4 : has_ev t4 (is_clear me)).
   { destruct Hc3 as (x & [<-|Hin] & Hx); [unfold is_clear in Hx; rewrite Ecw in Hx; discriminate Hx|exists x; auto]. }
-  (* the rest: clock then the final decision, for whichever answer the stuck query got *)
-  assert (FIN : forall w : bool * oerr,
-     runs (let stuck := match snd w with Some _ => false | None => fst w end in
-           clk0 <- (if stuck then t <- now_ 73 ;; Ret (if clk =? 0 then t else clk) else Ret 0) ;;
-           rec_final me (snd u) master st mg stuck clk0) t4 o ->
+  (* the rest: clock then the final decision, for the answer the stuck query got *)
+  assert (FIN : forall b : bool,
+     runs (clk0 <- (if b then t <- now_ 73 ;; Ret (if clk =? 0 then t else clk) else Ret 0) ;;
+           rec_final me (snd u) master st mg b clk0) t4 o ->
      exists rs, st = Some rs /\ permanently_lost rs mg = false /\
        has_ev t4 (fun e => ev_call e = Sql me SIsReadOnly /\ exists s, ev_resp e = RFlags true s) /\
-       ((match snd w with Some _ => false | None => fst w end) = false \/ master = me)).
-  { intros w Rw. cbn zeta in Rw.
+       (b = false \/ master = me)).
+  { intros b Rw.
     destruct (runs_bind_inv _ _ _ _ Rw) as [(a1 & a2 & clk0 & Ra & Rb & ->)|(s & Ra & ->)].
     - assert (Na : ~ has_ev a1 (is_clear me)).
-      { revert Ra. apply reads_no_clear. destruct (match snd w with Some _ => false | None => fst w end); [unfold now_; pac0; exact I|exact I]. }
+      { revert Ra. apply reads_no_clear. destruct b; [unfold now_; pac0; exact I|exact I]. }
       assert (Hb : has_ev a2 (is_clear me)).
       { destruct Hc4 as (x & Hin & Hx). apply in_app_or in Hin. destruct Hin as [Hin|Hin]; [exfalso; apply Na; exists x; auto|exists x; auto]. }
       destruct (rec_final_clears _ _ _ _ _ _ _ _ _ Rb Hb) as (rs & E1 & E2 & E3 & E4).
       exists rs. split; [exact E1|]. split; [exact E2|]. split; [apply has_ev_app_r; exact E4|exact E3].
-    - exfalso. revert Ra Hc4. apply reads_no_clear. destruct (match snd w with Some _ => false | None => fst w end); [unfold now_; pac0; exact I|exact I]. }
+    - exfalso. revert Ra Hc4. apply reads_no_clear. destruct b; [unfold now_; pac0; exact I|exact I]. }
   assert (LIFT : forall P, has_ev t4 P -> has_ev (t1 ++ eg :: ew :: t4) P).
   { intros P H. apply has_ev_app_r. apply has_ev_cons, has_ev_cons. exact H. }
   assert (GT : has_ev (t1 ++ eg :: ew :: t4) (fun e => ev_call e = Sql master SGtidExecuted /\ ev_resp e = RGtid mg)).
   { apply has_ev_app_r. exists eg. split; [left; reflexivity|auto]. }
-  destruct (ev_resp ew) as [er| |b| | | | | | | | | | | |] eqn:Erw; cbn [bind] in R2.
-  all: match type of R2 with runs (?f ?w) _ _ => idtac | _ => idtac end.
-  all: try (destruct (FIN (false, Some EOther) R2) as (rs & E1 & E2 & E4 & E3); exists rs, mg; split; [exact E1|]; split; [exact E2|]; split; [exact GT|]; split; [apply LIFT; exact E4|];
-            right; apply has_ev_app_r, has_ev_cons; exists ew; split; [left; reflexivity|]; split; [exact Ecw|rewrite Erw; discriminate]).
-  destruct (FIN (b, None) R2) as (rs & E1 & E2 & E4 & E3). exists rs, mg. split; [exact E1|]. split; [exact E2|]. split; [exact GT|]. split; [apply LIFT; exact E4|].
-    cbn [snd fst] in E3. destruct E3 as [E3|E3]; [|left; exact E3]. right. apply has_ev_app_r, has_ev_cons. exists ew. split; [left; reflexivity|]. split; [exact Ecw|].
-    rewrite Erw, E3. discriminate.
+  destruct (ev_resp ew) as [er| |b| | | | | | | | | | | |] eqn:Erw; cbn [bind snd fst] in R2;
+    try (exfalso; cbn in R2; destruct R2 as [-> _]; destruct Hc4 as (x & [] & _)).
+  destruct (FIN b R2) as (rs & E1 & E2 & E4 & E3). exists rs, mg. split; [exact E1|]. split; [exact E2|]. split; [exact GT|]. split; [apply LIFT; exact E4|].
+    destruct E3 as [E3|E3]; [|left; exact E3]. right. apply has_ev_app_r, has_ev_cons. exists ew. split; [left; reflexivity|]. split; [exact Ecw|].
+    rewrite Erw, E3. reflexivity.
 Qed.
 
 (* C11: the mark is cleared only after, in the same check: the resetup marker was absent, the host
@@ -181,7 +179,7 @@ Theorem mark_cleared_only_when_clean me m clk tr o :
     has_ev tr (fun e => ev_call e = Sql master SGtidExecuted /\ ev_resp e = RGtid mg) /\
     permanently_lost rs mg = false /\
     has_ev tr (fun e => ev_call e = Sql me SIsReadOnly /\ exists s, ev_resp e = RFlags true s) /\
-    (master = me \/ has_ev tr (fun e => ev_call e = Sql me SWaitingAck /\ ev_resp e <> RBool true)).
+    (master = me \/ has_ev tr (fun e => ev_call e = Sql me SWaitingAck /\ ev_resp e = RBool false)).
 Proof.
   unfold check_recovery. intros R Hc. cbn [runs] in R. destruct tr as [|e0 t0]; [destruct Hc as (x & [] & _)|]. destruct R as (_ & Ec0 & R).
   assert (H0 : has_ev t0 (is_clear me)).
@@ -246,6 +244,7 @@ Proof.
   destruct (negb (fst u)); [exact I|]. destruct (negb (mem_host _ _)); [exact I|].
   apply nopanic_bind; [unfold gtid_executed; pnp|]. intros g. destruct (snd g); [exact I|].
   apply nopanic_bind; [unfold is_waiting_ack; pnp|]. intros w. cbn zeta.
-  apply nopanic_bind; [destruct (match snd w with Some _ => false | None => fst w end); [unfold now_; pnp|exact I]|].
+  destruct (snd w); [exact I|].
+  apply nopanic_bind; [destruct (fst w); [unfold now_; pnp|exact I]|].
   intros clk0. unfold rec_final, rec_stuck, now_, replica_status, is_read_only, dcs_delete_. pnp.
 Qed.
